@@ -1,11 +1,11 @@
 SPECIFICATION SafetySpec
 CONSTANTS
-  FixDurs = {0,2}
-  ScanDurs = {0,2}
+  FixDurs = {0,1,2,3}
+  ScanDurs = {1}
   RestDurs = {1}
-  NodeDurs = {0,1}
+  NodeDurs = {0,1,2}
   UseSw = TRUE
-  UseFs = TRUE
+  FsOps = {"SqlDelete","SqlEncrypt","FileScan"}
   AllowRestart = TRUE
   InitSw = {"GOOD"}
 VIEW View
@@ -24,5 +24,4 @@ PROPERTY RestoreInWindow
 PROPERTY OsScanInWindow
 PROPERTY InstantOnlyAtZero
 PROPERTY OffTicksChangeNothing
-
 CHECK_DEADLOCK TRUE
